@@ -105,6 +105,14 @@ def consumers(report, env, rng):
                     r = p.parse(text)
                     if r['result'] is not want:
                         note(text, dict(binds, k=repr(k)), 'the serial of d is %r: expected %r got %r' % (s, want, r))
+        # serials increase strictly with time: date-times a second / a millisecond apart are different under every operator
+        for gap in (datetime.timedelta(seconds=1), datetime.timedelta(milliseconds=1), datetime.timedelta(minutes=1)):
+            p.set_variable('g', d + gap)
+            for text, want in (('d<g', True), ('d=g', False), ('d<>g', True), ('d>=g', False), ('g>d', True), ('g<=d', False), ('g=d', False), ('N(g)>N(d)', True)):
+                cases += 1
+                r = p.parse(text)
+                if r['result'] is not want:
+                    note(text, dict(binds, g=(d + gap).isoformat()), 'g is %s later than d: expected %r got %r' % (gap, want, r))
         for op, f in (('<', lambda a, b: a < b), ('=', lambda a, b: a == b), ('>=', lambda a, b: a >= b)):
             cases += 1
             r = p.parse('d%se' % op)
@@ -112,7 +120,7 @@ def consumers(report, env, rng):
                 note('d%se' % op, binds, 'expected %r got %r' % (f(s, se), r))
     bounded(report, 'C13.consumers', 'seeded date-times from 1 March 1900 on (time of day in eighths of a day) through Parser.parse: date +/- n, date - date, '
             'N, DAYS, DATEVALUE against the serial of the statement; 7 numbers around the serial (int and float) x 6 comparison operators x '
-            '{variable left, variable right, literal left}; date against date', cases, fails)
+            '{variable left, variable right, literal left}; date against date; date-times 1 ms / 1 s / 1 min apart under every operator', cases, fails)
 
 
 def replay(rp):
@@ -121,7 +129,7 @@ def replay(rp):
         import datetime as _dt
         p = e2e.new_parser()
         for k, v in (rp.get('bindings') or {}).items():
-            p.set_variable(k, _dt.datetime.fromisoformat(v) if k in ('d', 'e') else eval(v))
+            p.set_variable(k, _dt.datetime.fromisoformat(v) if k in ('d', 'e', 'g') else eval(v))
         print('parse(%r) with %r -> %r ; %s' % (rp['formula'], rp.get('bindings'), p.parse(rp['formula']), rp['detail']))
         return 1
     from pyvc import native
